@@ -254,6 +254,15 @@ func (x *Exec) assertCond(id string, c *Term, forcedRegion string) {
 	}
 	outside := append([]*Term{neg}, mapNot(knownConds)...)
 	r, m, _ := x.checkModel(outside...)
+	if r == Unsat && x.E.Tier == "thorough" {
+		// second opinion on every unsat verdict (DESIGN §4.4)
+		x.confirms++
+		if r2, who := x.Solver.Confirm(x.pc, outside); r2 == Sat {
+			x.inconclusive = append(x.inconclusive, "assertion "+id+": solvers disagree (unsat vs sat by "+who+")")
+		} else if r2 == Unsat {
+			x.confirmed++
+		}
+	}
 	switch r {
 	case Sat:
 		x.violations = append(x.violations, &Violation{ID: id, Model: m, Decision: append([]int8{}, x.decisions[:x.pos]...)})
